@@ -3,6 +3,7 @@
 package tun
 
 import (
+	"time"
 	"testing"
 
 	"pgregory.net/rapid"
@@ -22,6 +23,7 @@ func bubbleFail(br *BubbleResult) *common.Fail {
 
 func TestC03B(t *testing.T) {
 	rec := common.NewRec("C03", "bubble")
+	bubbleWD = common.NewWatchdog(rec, 90*time.Second)
 	completed := false
 	defer func() { rec.Finish(completed) }()
 	run := func(p *Plan) *common.Fail {
